@@ -2,6 +2,8 @@
 package main
 
 import (
+	"sort"
+	"strings"
 	"go/types"
 )
 
@@ -12,13 +14,13 @@ func (ex *Exec) sliceLen(s RefV) *Term {
 		case SliceT:
 			n = Ite(a.C, t.Len, n)
 		case BoxT:
-			n = Ite(a.C, BVC(2, 64), n) // length of marshalled JSON: opaque positive
+			n = Ite(a.C, boxLen(t.B), n)
 		case BoxSeqT:
-			var any []*Term
+			sum := BVC(0, 64)
 			for _, e := range t.Elems {
-				any = append(any, e.G)
+				sum = BVBin("bvadd", sum, Ite(e.G, boxLen(e.B), BVC(0, 64)))
 			}
-			n = Ite(a.C, Ite(Or(any...), BVC(2, 64), BVC(0, 64)), n)
+			n = Ite(a.C, sum, n)
 		case LineT:
 			n = Ite(a.C, Ite(t.Cell.Blank, BVC(0, 64), BVC(2, 64)), n)
 		default:
@@ -281,4 +283,33 @@ func (ex *Exec) densify(s RefV, et types.Type) RefV {
 		out = addAlt(out, a.C, SliceT{Arr: arr, Off: 0, Len: st.Len, Cap: n})
 	}
 	return RefV{Alts: out}
+}
+
+// boxLen: the byte length of a marshalled JSON line is at least a small constant plus the byte
+// lengths of its string fields (escaping only adds). Used where code branches on buffer sizes; a
+// model that needs a long line then needs long texts, which the concretiser can build.
+var boxLenMemo = map[*Box]*Term{}
+
+func boxLen(b *Box) *Term {
+	if t, ok := boxLenMemo[b]; ok {
+		return t
+	}
+	n := BVC(60, 64)
+	keys := make([]string, 0, len(b.Keys))
+	for k := range b.Keys {
+		keys = append(keys, k)
+	}
+	sort.Strings(keys)
+	for _, k := range keys {
+		if k == "\n" || strings.HasSuffix(k, "!malformed") {
+			continue
+		}
+		v := b.Keys[k]
+		if v.sort != SInt {
+			continue
+		}
+		n = BVBin("bvadd", n, UF("strlen", SBV(64), v))
+	}
+	boxLenMemo[b] = n
+	return n
 }
